@@ -402,6 +402,52 @@ def operand_forms(tier, seed):
     return run
 
 
+def assembler_reuse(tier, seed):
+    """finalize() hands out a result and leaves the Assembler ready for the next text: the result of the NEXT assemble/finalize is what a fresh
+    Assembler gives for that text, and a result already handed out does not change when its Assembler is used again"""
+    def run():
+        logging.getLogger("gtirb_rewriting").setLevel(logging.CRITICAL)
+        br = BResult()
+        texts = ["nop\nret", "call modsym\nnop\nret", "je Lq\nnop\nLq:\nret", "jmp modsym", "Lz:\ndecq %rdi\njne Lz\nret", ".byte 1, 2\nnop", "movq modsym(%rip), %rax\nret"]
+        br.bound = "x64 AT&T: every ordered pair of 7 texts (straight code, call, conditional jump over a label, jump out, loop, data, symbolic operand) assembled and finalised one after the other on ONE Assembler"
+        br.clauses = ["C12/reuse/second-result-is-what-a-fresh-assembler-gives", "C12/reuse/a-result-handed-out-does-not-change"]
+        isa, ff, syntax, cs = ISAS["x64-att"]
+
+        def dump(res):
+            sec = res.text_section
+            blocks = list(sec.blocks)
+            return (bytes(sec.data).hex(), [(type(b).__name__, b.offset, b.size) for b in blocks],
+                    sorted((s_.name, s_.referent.offset if isinstance(s_.referent, gtirb.ByteBlock) else "proxy") for s_ in res.symbols),
+                    sorted((((e.source.offset if e.source in blocks else "FOREIGN"), (e.target.offset if e.target in blocks else ("proxy" if isinstance(e.target, gtirb.ProxyBlock) and e.target in res.proxies else ("module" if getattr(e.target, "module", None) is not None else "FOREIGN"))),
+                            e.label.type.name, bool(e.label.conditional)) for e in res.cfg), key=repr),
+                    len(res.proxies), sorted((k, type(v).__name__, v.symbol.name, v.offset) for k, v in sec.symbolic_expressions.items()))
+        distinct = set()
+        for t1, t2 in itertools.product(texts, repeat=2):
+            ir, m, modsym = mk_module(isa, ff)
+            a = Assembler(m)
+            a.assemble(t1, syntax)
+            r1 = a.finalize()
+            d1 = dump(r1)
+            a.assemble(t2, syntax)
+            r2 = a.finalize()
+            ir_, m_, _ = mk_module(isa, ff)
+            f = Assembler(m_)
+            f.assemble(t2, syntax)
+            want = dump(f.finalize())
+            br.cases += 1
+            distinct.add((t1, t2))
+            desc = {"first text": t1.splitlines(), "second text": t2.splitlines()}
+            if dump(r2) != want:
+                br.failures.append({"clause": "C12/reuse/second-result-is-what-a-fresh-assembler-gives", "witness": desc, "detail": "reused %s fresh %s" % (str(dump(r2))[:160], str(want)[:160])})
+            if dump(r1) != d1:
+                br.failures.append({"clause": "C12/reuse/a-result-handed-out-does-not-change", "witness": desc, "detail": "first result before %s after %s" % (str(d1)[:160], str(dump(r1))[:160])})
+            if len(br.samples) < 2:
+                br.samples.append(desc)
+        br.nontrivial = len(distinct)
+        return br
+    return run
+
+
 def c12_bounded(tier, seed):
     def run():
         logging.getLogger("gtirb_rewriting").setLevel(logging.CRITICAL)
@@ -523,9 +569,9 @@ def precreate_label_harness(ctx):
 
 
 def symbol_lookup_harness(ctx):
-    for where, allow in itertools.product(("local", "module", "both", "nowhere"), (False, True)):
+    for where, allow, temporary, suffix in itertools.product(("local", "module", "both", "nowhere"), (False, True), (False, True), (None, "_7")):
         ir, m, modsym = mk_module(gtirb.Module.ISA.X64, gtirb.Module.FileFormat.ELF)
-        a = Assembler(m, allow_undef_symbols=allow)
+        a = Assembler(m, allow_undef_symbols=allow, temp_symbol_suffix=suffix)
         st = a._state
         loc = gtirb.Symbol("modsym" if where == "both" else "locsym")
         if where in ("local", "both"):
@@ -535,13 +581,16 @@ def symbol_lookup_harness(ctx):
         got = streamer._symbol_lookup(name)
         want = {"local": loc, "both": loc, "module": modsym, "nowhere": None}[where]
         ctx.prove("symbol_lookup/local-first-then-the-modules-own-symbol-object", z3.BoolVal(got is want), note="%s" % where)
-        mcsym = type("S", (), {"name": name})()
+        # stand-in for the assembler's symbol object: the name as written, and whether the assembler regards it as temporary
+        mcsym = type("S", (), {"name": name, "is_temporary": temporary, "__getattr__": lambda self_, n: False})()
         try:
             r1 = streamer._resolve_symbol(mcsym, None)
             r2 = streamer._resolve_symbol(mcsym, None)
             if where == "nowhere":
                 ok = allow and r1 is r2 and isinstance(r1.referent, gtirb.ProxyBlock) and r1.referent in st.proxies and st.local_symbols.get(name) is r1 and r1.name == name
-                ctx.prove("resolve_symbol/unknown-name-allowed-gives-exactly-one-proxy-backed-symbol", z3.BoolVal(bool(ok)))
+                ok = ok and streamer._symbol_lookup(name) is r1
+                ctx.prove("resolve_symbol/unknown-name-allowed-gives-exactly-one-proxy-backed-symbol", z3.BoolVal(bool(ok)),
+                          note="temporary=%s suffix=%s: %s, %s, recorded under %s" % (temporary, suffix, r1.name, "same object twice" if r1 is r2 else "TWO objects", sorted(st.local_symbols)))
             else:
                 ctx.prove("resolve_symbol/known-name-binds-to-the-existing-object", z3.BoolVal(r1 is want and r2 is want))
         except UndefSymbolError:
@@ -738,6 +787,7 @@ def c13_bounded(tier, seed):
 
 def jobs_c12(tier="quick", seed=0):
     yield Job("C12/symbol_lookup", symbol_lookup_harness, kind="E", func="gtirb_rewriting.assembler.assembler:_Streamer._symbol_lookup/_resolve_symbol", expect_cover=("enumerated",))
+    yield Job("C12/assembler-reuse-bounded", assembler_reuse(tier, seed), kind="B", func="gtirb_rewriting.assembler.assembler:Assembler.finalize")
     yield Job("C12/operand-forms-bounded", operand_forms(tier, seed), kind="B", func="gtirb_rewriting.assembler.assembler:_Streamer._fixup_to_symbolic_operand/_mcexpr_to_symbolic_operand")
     yield Job("C12/assembler-vs-capstone-bounded", c12_bounded(tier, seed), kind="B", func="gtirb_rewriting.assembler.assembler:Assembler")
 
